@@ -104,6 +104,16 @@ theorem window_filter (start stop : Int) (v : Variant) :
     variants_WriteVariants start stop v.pos = [inWindow start stop v] := by
   simp [variants_WriteVariants, inWindow]
 
+/-- which SAM records the two readers skip (unmapped: bit 4; secondary: bit 256), translated from the source: the model's
+`isSkipped` on the record's flag, for every flag value -/
+theorem sam_skip (r : SamRec) :
+    (sam_groupSamRecords r.flag).any id = isSkipped r ∧ (indels_getSamRecords r.flag).any id = isSkipped r := by
+  have h2 : ∀ n : Nat, (n >>> 2) &&& 1 = (n / 4) % 2 := by
+    intro n; rw [Nat.shiftRight_eq_div_pow, Nat.and_one_is_mod]
+  have h8 : ∀ n : Nat, (n >>> 8) &&& 1 = (n / 256) % 2 := by
+    intro n; rw [Nat.shiftRight_eq_div_pow, Nat.and_one_is_mod]
+  simp [sam_groupSamRecords, indels_getSamRecords, isSkipped, h2, h8]
+
 /-- not vacuous: the two classes of column that the tests separate -/
 example : closest_rawDistance 136 72 = [1, 1] ∧ closest_rawDistance 136 136 = [0, 1] ∧ closest_rawDistance 136 240 = [0, 0] := by decide
 example : closest_tn93Distance 136 72 = [1, 0, 1, 1] ∧ closest_tn93Distance 40 24 = [0, 1, 1, 1] ∧ closest_tn93Distance 136 24 = [0, 0, 1, 1] := by decide
